@@ -319,9 +319,13 @@ func (g *G) GenProgram(maxChain, maxEvents, maxOps int) *Program {
 		if ev.Fin != "Send" && r.Chance(4, 5) {
 			ev.Msg = g.V.String()
 		}
+		if ev.Fin == "Msgf" && r.Chance(1, 3) {
+			// text that means something to fmt: escaped and dangling percent signs, verbs without operands
+			ev.Msg += []string{"100%%", "50%", "%s", "%d%%", "%v %!", "%"}[r.Intn(6)]
+		}
 		finalMsg := ev.Msg
 		if ev.Fin == "Msgf" {
-			finalMsg = ev.Msg + "7"
+			finalMsg = MsgfText(ev.Msg)
 		}
 		if ev.Fin == "Send" {
 			finalMsg = ""
@@ -531,6 +535,12 @@ func (x *Exec) BuildLogger(base zerolog.Logger, chain []Step, out *Rec, hookLog 
 				hs[j] = x.mkHook(h, hookLog)
 			}
 			l = l.Hook(hs...)
+			if st.Decoy {
+				// the slice handed to Hook is the caller's: overwriting it afterwards must not reach the logger
+				for j := range hs {
+					hs[j] = decoyHook{}
+				}
+			}
 		case "Level":
 			l = l.Level(st.Level)
 		case "Output":
@@ -562,6 +572,30 @@ type decoyHook struct{}
 
 func (decoyHook) Run(e *zerolog.Event, l zerolog.Level, m string) { e.Str("DECOY", "hook") }
 
+// msgfForm picks, from the message itself, how a Msgf finalizer is written: 0 = "%s%d" with two operands, 1 = the
+// message as the format without operands, 2 = the message plus "100%%" without operands.
+func msgfForm(m string) int {
+	h := 0
+	for i := 0; i < len(m); i++ {
+		h = h*31 + int(m[i])
+	}
+	if h < 0 {
+		h = -h
+	}
+	return h % 4 % 3 // 0,1,2,0
+}
+
+// MsgfText is what a Msgf finalizer of message m produces.
+func MsgfText(m string) string {
+	switch msgfForm(m) {
+	case 1:
+		return fmt.Sprintf(m)
+	case 2:
+		return fmt.Sprintf(m + "100%%")
+	}
+	return fmt.Sprintf("%s%d", m, 7)
+}
+
 // StartEvent opens the event of ev on l.
 func StartEvent(l *zerolog.Logger, ev *EventSpec) *zerolog.Event {
 	switch ev.Entry {
@@ -590,7 +624,14 @@ func Finish(e *zerolog.Event, ev *EventSpec) {
 	case "Msg":
 		e.Msg(ev.Msg)
 	case "Msgf":
-		e.Msgf("%s%d", ev.Msg, 7)
+		switch msgfForm(ev.Msg) {
+		case 1:
+			e.Msgf(ev.Msg) // no operands: still a format (the generated text may hold % signs)
+		case 2:
+			e.Msgf(ev.Msg+"100%%", []interface{}{}...)
+		default:
+			e.Msgf("%s%d", ev.Msg, 7)
+		}
 	case "MsgFunc":
 		e.MsgFunc(func() string { return ev.Msg })
 	default:
